@@ -19,8 +19,12 @@ REPO = os.environ.get("BSL_REPO", "/repo")
 def run(args, junit):
     env = dict(os.environ); env.pop("BLUESKY_VERIF", None)
     env["PYTHONPATH"] = os.path.join(REPO, "src")
-    subprocess.run(["/venv/bin/python", "-m", "pytest", "-q", "-p", "no:cacheprovider", "--timeout=900",
-                    "--continue-on-collection-errors", f"--junitxml={junit}"] + args, cwd=REPO, env=env,
+    cmd = ["/venv/bin/python", "-m", "pytest", "-q", "-p", "no:cacheprovider", "--timeout=900",
+           "--continue-on-collection-errors", f"--junitxml={junit}"] + args
+    if os.environ.get("BSL_NETNS"):
+        # own network namespace: the zmq tests bind fixed ports, so concurrent suite runs would collide otherwise
+        cmd = ["unshare", "-n", "sh", "-c", 'ip link set lo up; exec "$@"', "sh"] + cmd
+    subprocess.run(cmd, cwd=REPO, env=env,
                    stdout=subprocess.DEVNULL, stderr=subprocess.DEVNULL,
                    # a shell's background jobs ignore SIGINT; the suite's SIGINT tests need the default disposition
                    preexec_fn=lambda: signal.signal(signal.SIGINT, signal.SIG_DFL))
